@@ -118,6 +118,9 @@ def job1(spec, fe):
             bad.append('I2 %s: after the re-run the journal is not empty / needs_recovery is still set' % label)
     return (spec, fe, bad, n, nW, nS)
 
+def FMT_HAS_CSUM(fmt):
+    return 'v2' in fmt or 'v3' in fmt
+
 def main(tier, only=None):
     global IOTRACE
     ck = Check('C04', tier, 'fault_enumeration')
@@ -131,10 +134,18 @@ def main(tier, only=None):
     specs = []
     D = lambda *n: {'items': [['D', list(n)]]}
     big = {'items': [['D', list('ABCDEFGHIJKL')]]}
-    for base, fmt in (('ext3', '32-none'), ('ext4csum', '64-v3')):
+    for base, fmt in (('ext3', '32-none'), ('ext4csum', '64-v3'), ('ext3', '32-v2')):
         specs.append({'base': base, 'fmt': fmt, 'txns': [D('A', 'B'), {'items': [['R', ['A']], ['D', ['C', 'eB']]]}, c03.TAIL]})
         specs.append({'base': base, 'fmt': fmt, 'txns': [big, c03.TAIL]})                     # more replayed blocks than the 8-entry unix_io cache: evictions before the sync
         specs.append({'base': base, 'fmt': fmt, 'txns': [big, {'items': [['R', list('ABCD')], ['D', list('EFGHIJKL')]]}, c03.TAIL]})
+        if FMT_HAS_CSUM(fmt):
+            # journals whose replay reports an error after blocks were already replayed (a logged block fails its tag checksum, a later commit block
+            # fails its checksum): the replayed blocks still have to be durable before the journal is emptied
+            sh = [D('A', 'B'), D('C', 'D', 'E'), D('F')]
+            probe = c03.build_case({'base': base, 'fmt': fmt, 'txns': sh + [c03.TAIL]})[3]
+            for idx, (pos, kind, t, info) in enumerate(probe.log):
+                if kind == 'data' and t == 1: specs.append({'base': base, 'fmt': fmt, 'txns': sh + [c03.TAIL], 'dev': ['flip', idx, 100, 1]})
+                if kind == 'commit' and t >= 1: specs.append({'base': base, 'fmt': fmt, 'txns': sh + [c03.TAIL], 'dev': ['flip', idx, 17, 1]})
         n = len(c03.ctx(base)['jmap'])
         specs.append({'base': base, 'fmt': fmt, 'start': n - 3, 'txns': [D('A', 'B', 'C'), D('A'), c03.TAIL]})       # wrapped log
         S = two[::4] if quick else two
@@ -150,7 +161,7 @@ def main(tier, only=None):
         for b in bad[:2]:
             ck.violation('%s :: %s :: %s' % (c03.cid(spec), fe, b[:60]), {'spec': spec, 'frontend': fe, 'what': b, 'all': bad[:10]})
     ck.add(evaluations=nruns, distinct_nontrivial=ncrash, states=ncrash, transitions=nruns, traces_validated_against_impl=len(jobs),
-           rule='journal (xck.jbd2 writer; all T<=2 shapes over two targets, 12-target transactions that overflow the block cache, wrapped log; two formats) x front-end {e2fsck -y -E journal_only, e2fsck -fy, debugfs jr}: '
+           rule='journal (xck.jbd2 writer; all T<=2 shapes over two targets, 12-target transactions that overflow the block cache, wrapped log, journals with a tag- or commit-checksum failure in a later transaction; three formats) x front-end {e2fsck -y -E journal_only, e2fsck -fy, debugfs jr}: '
                 'the pwrite/fsync trace of one recovery is recorded, then every crash image = every trace prefix x every subset of the writes issued since the last completed fsync lost (all subsets up to 10 pending writes, else <=2 lost / <=2 surviving); '
                 'distinct_nontrivial = distinct crash images; oracle I1 (journal empty or needs_recovery clear => all replayed blocks already final) on each image, I2 (re-running recovery reproduces the uninterrupted result, journal empty, flag clear)',
            samples=[c03.cid(specs[0]) + ' :: ' + fes[0], c03.cid(specs[1]) + ' :: ' + fes[-1]])
